@@ -2096,7 +2096,11 @@ class Rule(metaclass=LogicalType):
                             continue
             else:
                 val = _val
-            result[key] = val
+            try:
+                result[key] = val
+            except TypeError as e:
+                # a parsed key that is not hashable (Dict[List[int], int]) cannot be a key of the result
+                context.handle_error(exc.ParseError(item=_key, value=key, type=key_type, origin_exc=e))
         return result
 
     @classmethod
